@@ -26,6 +26,7 @@ import (
 	"mellium.im/xmlstream"
 	"mellium.im/xmpp"
 	"mellium.im/xmpp/jid"
+	"mellium.im/xmpp/websocket"
 
 	"verifharness/vt"
 )
@@ -71,6 +72,7 @@ type Scenario struct {
 	CancelAt  int       `json:"cancelat"` // cancel the context at the k-th transport operation (0 = never)
 	Tee       int       `json:"tee"`      // 0 off, 1 in, 2 out, 3 both
 	Silent    bool      `json:"silent"`   // after the cancellation the peer sends nothing more (and does not close)
+	WS        bool      `json:"ws"`       // WebSocket framing (RFC 7395): <open/> instead of <stream:stream>
 }
 
 var pool = map[string]Kind{}
@@ -256,6 +258,24 @@ func (r *run) hdrBytes(h Hdr) string {
 	if r.sc.S2S {
 		ns = "jabber:server"
 	}
+	if r.sc.WS {
+		s := `<open xmlns='urn:ietf:params:xml:ns:xmpp-framing'`
+		if h.OK {
+			s += ` version='1.0'`
+		} else {
+			s += ` version='0.9'`
+		}
+		if r.sc.Role == "init" {
+			s += ` id='s1'`
+		}
+		if f := addrOf(r.sc.Role, "from", h.From); f != "" {
+			s += ` from='` + f + `'`
+		}
+		if t := addrOf(r.sc.Role, "to", h.To); t != "" {
+			s += ` to='` + t + `'`
+		}
+		return s + `/>`
+	}
 	s := `<?xml version="1.0"?><stream:stream xmlns='` + ns + `' xmlns:stream='http://etherx.jabber.org/streams'`
 	if h.OK {
 		s += ` version='1.0'`
@@ -298,6 +318,9 @@ func (r *run) sendList() bool {
 	l := r.sc.Lists[r.listIdx]
 	r.listIdx++
 	s := "<stream:features>"
+	if r.sc.WS {
+		s = "<features xmlns='http://etherx.jabber.org/streams'>"
+	}
 	items := []interface{}{}
 	for _, e := range l {
 		n := nameOf(e.F)
@@ -308,7 +331,11 @@ func (r *run) sendList() bool {
 		s += fmt.Sprintf("<%s xmlns='%s'%s/>", n.Local, n.Space, req)
 		items = append(items, vt.Ev{"f": e.F, "req": e.Req})
 	}
-	s += "</stream:features>"
+	if r.sc.WS {
+		s += "</features>"
+	} else {
+		s += "</stream:features>"
+	}
 	r.peerItem(vt.Ev{"k": "features", "list": items}, s)
 	return true
 }
@@ -322,7 +349,11 @@ func (r *run) sendSel() bool {
 	n := nameOf(x.F)
 	s := fmt.Sprintf("<%s xmlns='%s'/>", n.Local, n.Space)
 	if x.IQ {
-		s = fmt.Sprintf("<iq type='set' id='sel%d'>%s</iq>", r.selIdx, s)
+		ns := "jabber:client"
+		if r.sc.S2S {
+			ns = "jabber:server"
+		}
+		s = fmt.Sprintf("<iq xmlns='%s' type='set' id='sel%d'>%s</iq>", ns, r.selIdx, s)
 	}
 	r.peerItem(vt.Ev{"k": "select", "f": x.F, "iq": x.IQ}, s)
 	return true
@@ -378,13 +409,13 @@ func runScenario(sc Scenario) []vt.Ev {
 	r.conn.React = func(p []byte) {
 		for _, t := range r.scan.Feed(p) {
 			switch {
-			case (t.Kind == "start" || t.Kind == "empty") && t.Name == "stream:stream":
+			case (t.Kind == "start" || t.Kind == "empty") && (t.Name == "stream:stream" || (t.Name == "open" && r.sc.WS && !fc.in)):
 				r.scan.SetDepth(0)
 				r.lg.Add(vt.Ev{"ev": "hdr_out"})
 				r.lastOut = "hdr"
-			case t.Name == "stream:features" && t.Kind == "start":
+			case (t.Name == "stream:features" || (r.sc.WS && t.Name == "features")) && t.Kind == "start":
 				fc = featCollector{in: true, list: []interface{}{}}
-			case t.Name == "stream:features" && (t.Kind == "end" || t.Kind == "empty"):
+			case (t.Name == "stream:features" || (r.sc.WS && t.Name == "features")) && (t.Kind == "end" || t.Kind == "empty"):
 				if t.Kind == "empty" {
 					fc.list = []interface{}{}
 				}
@@ -433,9 +464,13 @@ func runScenario(sc Scenario) []vt.Ev {
 	if sc.Tee&2 != 0 {
 		teeOut = io.Discard
 	}
-	neg := xmpp.NewNegotiator(func(*xmpp.Session, *xmpp.StreamConfig) xmpp.StreamConfig {
+	cfgf := func(*xmpp.Session, *xmpp.StreamConfig) xmpp.StreamConfig {
 		return xmpp.StreamConfig{Features: feats, TeeIn: teeIn, TeeOut: teeOut}
-	})
+	}
+	neg := xmpp.NewNegotiator(cfgf)
+	if sc.WS {
+		neg = websocket.Negotiator(cfgf)
+	}
 	state := stateOf(sc.Bits)
 	if sc.S2S {
 		state |= xmpp.S2S
@@ -558,6 +593,7 @@ func genScenario(rnd *rand.Rand, ids []string, faults bool) Scenario {
 	if rnd.Intn(4) == 0 {
 		sc.Tee = 1 + rnd.Intn(3)
 	}
+	sc.WS = rnd.Intn(4) == 0
 	return sc
 }
 
